@@ -147,6 +147,11 @@ def r2(chk, repo, d):
         if isinstance(st, ast.Assign) and match_stmt(
                 "value = value.value", st) is not None:
             return ("unwrap", st)
+        if isinstance(st, (ast.Assign, ast.AugAssign)) and any(
+                isinstance(t, ast.Name) and t.id == "value" for t in (
+                    st.targets if isinstance(st, ast.Assign)
+                    else [st.target])):
+            return ("rebind", st)
         for c in ast.walk(st) if not isinstance(st, ast.withitem) else \
                 ast.walk(st.context_expr):
             if isinstance(c, ast.Call) and isinstance(
@@ -154,8 +159,24 @@ def r2(chk, repo, d):
                     and len(c.args) == 5:
                 out = ("emit", c, paths.substitute(c.args[0], p.env))
         return out
-    ps = paths.explore(f, on)
+    ps = paths.explore(f, on, fact_events=True)
     chk.stats["paths"] += len(ps)
+    # the marker is looked for on the value as it was assigned: anything
+    # that re-binds `value` first (scaling, wrapping) goes through IAdd's
+    # own operators and may hand back a plain expression
+    early = []
+    for p in ps:
+        for i, e in enumerate(p.events):
+            if e[0] == "fact" and match("isinstance(value, IAdd)",
+                                        e[1]) is not None:
+                early.extend(x[1] for x in p.events[:i] if x[0] == "rebind")
+                break
+    chk.ob("R06.2", sym, "the IAdd marker is tested on the value as it was "
+           "assigned", not early, early[0] if early else f,
+           f"`{unparse(early[0])[:50]}` re-binds the value before it is "
+           f"tested: the in-place add can lose its marker there and is then "
+           f"stored as a plain value" if early else
+           "no re-binding of `value` precedes the test")
     iadd = [p for p in ps if p.fact("isinstance(value, IAdd)")]
     other = [p for p in ps if not p.fact("isinstance(value, IAdd)")]
     chk.floor("R06.2", "paths of Memory._set on which the value is an IAdd",
@@ -238,3 +259,44 @@ def r4(chk, repo, d):
         rebind = [s for s, v in assigned_values(f, "value")]
         chk.ob("R06.4", sym, "hands the assigned value on unchanged",
                ok and not rebind, f, f"`{pat}`")
+    # every descriptor that specialises MemoryDesc.__set__: on its way to
+    # the base implementation the value may not be re-bound (an IAdd that
+    # is turned into `old + amount` becomes load / add / store)
+    n = 0
+    for ci in repo.subclasses(E + "MemoryDesc"):
+        f = ci.methods.get("__set__")
+        if f is None or ci.qualname == E + "MemoryDesc" or \
+                ci.module.name.endswith("_test"):
+            continue
+        n += 1
+        sym = ci.qualname + ".__set__"
+        chk.analysed(sym)
+        params = param_names(f)
+        vname = params[2] if len(params) > 2 else "value"
+        cfg = CFG(f)
+        rd = ReachingDefs(cfg)
+        bad = []
+        for node in cfg.nodes:
+            if node.expr is None:
+                continue
+            for c, b in find("super().__set__($i, $v)", node.expr):
+                v = b["v"]
+                if not (isinstance(v, ast.Name) and v.id == vname):
+                    bad.append((c, f"hands on `{unparse(v)[:40]}`"))
+                    continue
+                for dd in rd.reaching(node, vname):
+                    if dd.kind == "param":
+                        continue
+                    st_ = dd.node.stmt if dd.node is not None else None
+                    safe = st_ is not None and any(
+                        not t and match(f"isinstance({vname}, IAdd)", e)
+                        is not None for e, t in path_facts(st_))
+                    if not safe:
+                        bad.append((c, f"`{vname}` is re-bound by "
+                                       f"`{unparse(st_)[:50] if st_ else '?'}`"))
+        chk.ob("R06.4", sym, "the program-side store receives the assigned "
+               "value itself", not bad, bad[0][0] if bad else f,
+               (bad[0][1] + ": an in-place add that is unwrapped before "
+                "Memory._set sees it is no longer a single atomic "
+                "instruction") if bad else "super().__set__(instance, value)")
+    chk.floor("R06.4", "descriptors specialising MemoryDesc.__set__", n, 2)
